@@ -357,7 +357,49 @@ func runC15(c *Ctx) {
 		if header == nil {
 			panic(anchorErr{"handler loop of broadcastHandler"})
 		}
-		c.pairedOnce(fn, header, reply, "reply on req.errChan", callVia(bc), "cfg.Broadcast(req.tx)", 2)
+		// (where the configured broadcast function itself is found missing,
+		// the "no" sent back stands in for the call that cannot be made)
+		noFunc := map[*ssa.BasicBlock]bool{}
+		ir.Instrs(fn, func(in ssa.Instruction) {
+			bo, ok := in.(*ssa.BinOp)
+			if !ok || (bo.Op != token.EQL && bo.Op != token.NEQ) {
+				return
+			}
+			var v ssa.Value
+			switch {
+			case ir.IsNil(bo.Y):
+				v = bo.X
+			case ir.IsNil(bo.X):
+				v = bo.Y
+			default:
+				return
+			}
+			if !loadsField(bc)(v) {
+				return
+			}
+			for _, br := range ir.EqBranches(bo) {
+				if br.Pol < 0 {
+					continue
+				}
+				t := br.If.Block().Succs[br.Idx]
+				if len(t.Preds) == 1 {
+					noFunc[t] = true
+				}
+			}
+		})
+		refusal := func(in ssa.Instruction) bool {
+			snd, ok := in.(*ssa.Send)
+			if !ok || !reply(in) || !ir.KnownNonNil(snd.X) {
+				return false
+			}
+			for t := range noFunc {
+				if t == in.Block() || t.Dominates(in.Block()) {
+					return true
+				}
+			}
+			return false
+		}
+		c.pairedOnce(fn, header, reply, "reply on req.errChan", anyOf(callVia(bc), refusal), "cfg.Broadcast(req.tx)", 2)
 		// confirmation removes from the pending set
 		dels := find(fn, mapDelete(isPending))
 		c.verdict(len(dels) == 1, c.nm(fn)+" | a confirmation removes the transaction from the pending set", c.P.Pos(fn.Pos()), "delete(transactions, txHash)", "confirmed transactions are no longer removed from the pending set", c.ats(dels)...)
@@ -379,7 +421,53 @@ func runC15(c *Ctx) {
 		sorts := find(fn, callTo(ds))
 		okv := len(sorts) == 1
 		if okv {
-			okv = ir.CallOf(sorts[0]).Args[0] == ssa.Value(fn.Params[1])
+			// the pending set handed in, or a map filled from a range over it
+			// (entries left out are entries that hold no transaction)
+			var isPending func(v ssa.Value, d int) bool
+			isPending = func(v ssa.Value, d int) bool {
+				v = ir.Strip(v)
+				if v == ssa.Value(fn.Params[1]) {
+					return true
+				}
+				if d > 3 {
+					return false
+				}
+				switch x := v.(type) {
+				case *ssa.Phi:
+					for _, e := range x.Edges {
+						if !isPending(e, d+1) {
+							return false
+						}
+					}
+					return len(x.Edges) > 0
+				case *ssa.MakeMap:
+					n := 0
+					okAll := true
+					ir.Instrs(fn, func(in ssa.Instruction) {
+						mu, ok := in.(*ssa.MapUpdate)
+						if !ok || ir.Strip(mu.Map) != ssa.Value(x) {
+							return
+						}
+						n++
+						fromRange := func(y ssa.Value) bool {
+							return ir.DerivesFrom(y, func(z ssa.Value) bool {
+								nx, ok := z.(*ssa.Next)
+								if !ok {
+									return false
+								}
+								rg, ok := nx.Iter.(*ssa.Range)
+								return ok && ir.Strip(rg.X) == ssa.Value(fn.Params[1])
+							})
+						}
+						if !fromRange(mu.Key) || !fromRange(mu.Value) {
+							okAll = false
+						}
+					})
+					return n > 0 && okAll
+				}
+				return false
+			}
+			okv = isPending(ir.CallOf(sorts[0]).Args[0], 0)
 		}
 		calls := find(fn, callVia(bc))
 		for _, call := range calls {
